@@ -9,6 +9,12 @@ and 11.4 (top-level variables).  Independent of the Coq model and of the library
   * xsl:apply-imports with a null current rule is an error; otherwise the section 5.5 maximum of
     (import precedence, priority, position) among the rules imported into the stylesheet module of the current rule,
     same mode, pattern matching the current node; none: the built-in rule.
+  * xsl:apply-templates with xsl:with-param (stream wp): the content of xsl:with-param is instantiated once, where the
+    instruction stands: same current node, same current template rule, same mode as the surrounding template (not the
+    mode the instruction names); every rule chosen for a selected node prints the value first (all rules of such a case
+    declare the parameter); a built-in rule does not (the built-in rules of section 5.8 are written without xsl:param and
+    their xsl:apply-templates without xsl:with-param); xsl:apply-imports hands no parameter on.  An error inside the content when no selected node
+    has a rule of its own is not decided here (info["grey"]): a processor need not instantiate a parameter nobody receives.
 evaluate(case) -> ("ok", text, info) | ("err", reason, info); info["class_global"]: a top-level variable was first
 used where the current rule is not null, or its content is nothing but a parameter-less xsl:call-template (the two
 places where the library is known to differ)."""
@@ -57,7 +63,8 @@ def evaluate(case, limit=40000):
     vals = {}
     evaluating = []
     info = {"class_global": False, "imports": 0, "imports_in_named": 0, "imports_null": 0, "calls_direct": 0,
-            "globals_used": 0, "depth": 0}
+            "globals_used": 0, "depth": 0, "wp": 0, "wp_imports": 0, "wp_imports_other_mode": 0, "grey": False}
+    in_wp = [False, None]                # census only: directly inside the content of an xsl:with-param?  mode its instruction names
     size = [0]
 
     def emit(out, s):
@@ -73,12 +80,19 @@ def evaluate(case, limit=40000):
         for k in nodes[i]["kids"]:
             apply_to(out, k, mode, depth)
 
-    def apply_to(out, i, mode, depth):
+    def apply_to(out, i, mode, depth, pval=""):
         ru = choose(case, case["root"], False, mode, i)
         if ru is None:
             builtin(out, i, mode, depth + 1)
         else:
-            body(out, ru["body"], i, mode, ru, depth + 1, False)
+            if pval:
+                emit(out, pval)
+            saved = in_wp[:]
+            in_wp[:] = [False, None]         # the census is about xsl:apply-imports standing in the content itself
+            try:
+                body(out, ru["body"], i, mode, ru, depth + 1, False)
+            finally:
+                in_wp[:] = saved
 
     def body(out, b, i, mode, cur, depth, in_named):
         if depth > 150:
@@ -102,8 +116,29 @@ def evaluate(case, limit=40000):
             elif k == "a":
                 for n in (nodes[i]["kids"] if ins[1] == "c" else [i]):
                     apply_to(out, n, ins[2], depth)
+            elif k == "w":
+                sel = nodes[i]["kids"] if ins[1] == "c" else [i]
+                info["wp"] += 1
+                o2 = []
+                saved = in_wp[:]
+                in_wp[:] = [True, ins[2]]
+                try:
+                    body(o2, ins[3], i, mode, cur, depth + 1, in_named)
+                except XsltError:
+                    if not [n for n in sel if choose(case, case["root"], False, ins[2], n) is not None]:
+                        info["grey"] = True
+                    raise
+                finally:
+                    in_wp[:] = saved
+                pval = "".join(o2)
+                for n in sel:
+                    apply_to(out, n, ins[2], depth, pval)
             elif k == "i":
                 info["imports"] += 1
+                if in_wp[0] and cur is not None:
+                    info["wp_imports"] += 1
+                    if in_wp[1] != mode:
+                        info["wp_imports_other_mode"] += 1
                 if cur is None:
                     info["imports_null"] += 1
                     raise XsltError("xsl:apply-imports with a null current template rule")
